@@ -18,6 +18,15 @@ import (
 
 const verifRoot = "/verif"
 
+// outRoot is where evidence and replay files go: /verif, unless a self-test
+// run against a scratch tree (VERIF_REPO) redirects them with VERIF_OUT.
+func outRoot() string {
+	if d := os.Getenv("VERIF_OUT"); d != "" {
+		return d
+	}
+	return verifRoot
+}
+
 // Subst is a textual substitution applied to a copy of a repository file
 // for native replay only: it routes an environment call (clock, constructor,
 // matcher) to the native counterpart of the engine's stub.
@@ -424,7 +433,7 @@ func cmdCheck(args []string) int {
 	nviol := 0
 	jobs := c.Jobs(tier)
 	var pend []pendingNative
-	os.MkdirAll(filepath.Join(verifRoot, "replay"), 0o755)
+	os.MkdirAll(filepath.Join(outRoot(), "replay"), 0o755)
 	for _, j := range jobs {
 		l, pkg, err := loadJob(j)
 		if err != nil {
@@ -534,7 +543,7 @@ func cmdCheck(args []string) int {
 					case strings.HasPrefix(kind, "viol:"):
 						if nativeViolates(r) {
 							nviol++
-							p := filepath.Join(verifRoot, "replay", fmt.Sprintf("%s-%d.json", id, nviol))
+							p := filepath.Join(outRoot(), "replay", fmt.Sprintf("%s-%d.json", id, nviol))
 							writeReplay(p, id, j, cases[i], kind, r)
 							out.violations = append(out.violations, fmt.Sprintf("VIOLATION property=%s replay=%s", id, p))
 							fmt.Printf("  confirmed natively: %s -> %s %v\n", kind, r.Status, r.Out)
@@ -672,8 +681,8 @@ func cmdCheck(args []string) int {
 	}
 	ev["coverage"] = cov
 	eb, _ := json.MarshalIndent(ev, "", " ")
-	os.MkdirAll(filepath.Join(verifRoot, "evidence"), 0o755)
-	if err := os.WriteFile(filepath.Join(verifRoot, "evidence", id+".json"), eb, 0o644); err != nil {
+	os.MkdirAll(filepath.Join(outRoot(), "evidence"), 0o755)
+	if err := os.WriteFile(filepath.Join(outRoot(), "evidence", id+".json"), eb, 0o644); err != nil {
 		fmt.Println("cannot write evidence:", err)
 		return 2
 	}
